@@ -366,6 +366,15 @@ func genProbes(r *rec.Rand, s *scen.Scenario) []Probe {
 	for i := 0; i < 3; i++ {
 		tr := rels[len(rels)-1-r.Intn(5)]
 		p := Probe{API: 2, Type: tr[0], Rel: tr[1], User: users[r.Intn(len(users))], Key: 1000 + i}
+		if i < 2 {
+			// aligned with a Check probe: same type, relation, user (the candidate checks of ListObjects
+			// then share cache keys with that probe, and the flips of the probe flip the list)
+			c := ps[r.Intn(nCheck)]
+			if strings.HasPrefix(c.User, "user:u") && len(c.Ctx) == 0 {
+				t, _ := scen.SplitObj(c.Obj)
+				p.Type, p.Rel, p.User = t, c.Rel, c.User
+			}
+		}
 		if r.Chance(1, 6) {
 			if t, ok := randomTuple(r, s); ok {
 				p.Ctx = []scen.Tuple{t}
@@ -389,6 +398,36 @@ func genProbes(r *rec.Rand, s *scen.Scenario) []Probe {
 	}
 	ps = append(ps, Probe{API: 2, Type: "nosuch", Rel: "viewer", User: "user:u1", Key: 3001, Bad: true})
 	return ps
+}
+
+// ---- flip recipes ---------------------------------------------------------------------------------
+
+// A recipe gives access to `user` on an object of type T through ONE link tuple of the object (a
+// tupleset tuple or a userset grant: read with Read / ReadUsersetTuples, the reads the iterator
+// caches and the shared iterators serve) plus a grant at the far end.  Writing / deleting the link
+// flips the correct answer of the probes on that object while the cached iterators still hold the
+// old tuples.
+type recipe struct {
+	T, LinkRel, LT, LRel, GrantRel string // link = T:x#LinkRel@LT:y[#LRel]; grant = LT:y#GrantRel@user
+}
+
+func recipes(tmpl int) []recipe {
+	switch tmpl {
+	case 0:
+		return []recipe{
+			{"doc", "parent", "folder", "", "viewer"}, {"doc", "parent", "folder", "", "owner"},
+			{"doc", "viewer", "group", "member", "member"}, {"doc", "editor", "group", "member", "member"},
+			{"doc", "blocked", "group", "member", "member"},
+			{"folder", "parent", "folder", "", "viewer"}, {"folder", "viewer", "group", "member", "member"},
+			{"group", "member", "group", "member", "member"},
+		}
+	case 1:
+		return []recipe{{"repo", "admin", "team", "member", "member"}, {"repo", "writer", "team", "member", "member"}}
+	}
+	return []recipe{
+		{"project", "org", "org", "", "member"}, {"project", "org", "org", "", "admin"},
+		{"item", "project", "project", "", "lead"}, {"item", "project", "project", "", "member"},
+	}
 }
 
 // ---- plan ---------------------------------------------------------------------------------------
@@ -464,10 +503,137 @@ func makePlan(sub uint64, cfgIdx int, tier string) *Plan {
 		nOps = r.Range(40, 70)
 	}
 	last := -1 // the probe of the previous single-probe request
+	rcps := recipes(p.Tmpl)
+	loCons := func() int { return r.Intn(2) }
+	// block: make the probe's answer depend on one link tuple, ask (cached), flip the link, ask again
+	// cached (stale is allowed), HIGHER_CONSISTENCY (must be fresh), cached again
+	block := func() {
+		var cand []int
+		for _, i := range checks {
+			pr := p.probes[i]
+			if pr.Bad || !strings.HasPrefix(pr.User, "user:u") {
+				continue
+			}
+			t, _ := scen.SplitObj(pr.Obj)
+			for _, rc := range rcps {
+				if rc.T == t {
+					cand = append(cand, i)
+					break
+				}
+			}
+		}
+		if len(cand) == 0 {
+			return
+		}
+		pi := cand[r.Intn(len(cand))]
+		pr := p.probes[pi]
+		t, id := scen.SplitObj(pr.Obj)
+		var rs []recipe
+		for _, rc := range rcps {
+			if rc.T == t {
+				rs = append(rs, rc)
+			}
+		}
+		rc := rs[r.Intn(len(rs))]
+		oi := int(id[len(id)-1] - '0')
+		y := r.Intn(nIDs)
+		if rc.LT == rc.T {
+			if oi >= nIDs-1 {
+				return
+			}
+			y = oi + 1 + r.Intn(nIDs-1-oi)
+		}
+		link := scen.Tuple{Obj: pr.Obj, Rel: rc.LinkRel, User: oid(rc.LT, y)}
+		if rc.LRel != "" {
+			link.User += "#" + rc.LRel
+		}
+		grant := scen.Tuple{Obj: oid(rc.LT, y), Rel: rc.GrantRel, User: pr.User}
+		// other requests of the same kind to interleave: a batch containing the probe, a ListObjects
+		ask := func(cons int) {
+			switch r.Intn(4) {
+			case 0:
+				items := []int{pi}
+				for _, j := range checks {
+					if j != pi && len(items) < 3 && r.Chance(1, 2) {
+						items = append(items, j)
+					}
+				}
+				p.ops = append(p.ops, Op{Kind: "batch", Probes: items, Cons: cons})
+			default:
+				p.ops = append(p.ops, Op{Kind: "check", Probes: []int{pi}, Cons: cons})
+			}
+		}
+		setup := Op{Kind: "w"}
+		_, hasLink := present[link.Key()]
+		startWith := r.Chance(2, 3) // start with the link present (then delete it) or absent (then add it)
+		if _, ok := present[grant.Key()]; !ok {
+			add(grant)
+			setup.Writes = append(setup.Writes, grant)
+		}
+		rm := func(t scen.Tuple) {
+			delete(present, t.Key())
+			for j, k := range order {
+				if k == t.Key() {
+					order = append(order[:j], order[j+1:]...)
+					break
+				}
+			}
+		}
+		if startWith && !hasLink {
+			add(link)
+			setup.Writes = append(setup.Writes, link)
+		} else if !startWith && hasLink {
+			rm(link)
+			setup.Dels = append(setup.Dels, link)
+		}
+		if len(setup.Writes)+len(setup.Dels) > 0 {
+			p.ops = append(p.ops, setup)
+		}
+		ask(loCons())
+		if r.Chance(1, 2) {
+			ask(loCons())
+		}
+		// a ListObjects probe on the same type and user, if there is one
+		lop := -1
+		for _, j := range los {
+			if p.probes[j].Type == t && p.probes[j].User == pr.User {
+				lop = j
+			}
+		}
+		if lop < 0 && len(los) > 0 {
+			lop = los[r.Intn(len(los))]
+		}
+		if lop >= 0 && r.Chance(1, 2) {
+			p.ops = append(p.ops, Op{Kind: "lo", Probes: []int{lop}, Cons: loCons()})
+		}
+		flip := Op{Kind: "w"}
+		if startWith {
+			rm(link)
+			flip.Dels = []scen.Tuple{link}
+		} else {
+			add(link)
+			flip.Writes = []scen.Tuple{link}
+		}
+		p.ops = append(p.ops, flip)
+		if r.Chance(2, 3) {
+			ask(loCons())
+		}
+		ask(2)
+		ask(loCons())
+		if lop >= 0 && r.Chance(1, 2) {
+			if r.Chance(1, 2) {
+				p.ops = append(p.ops, Op{Kind: "lo", Probes: []int{lop}, Cons: loCons()})
+			}
+			p.ops = append(p.ops, Op{Kind: "lo", Probes: []int{lop}, Cons: 2})
+		}
+		last = pi
+	}
 	for len(p.ops) < nOps {
 		x := r.Intn(100)
 		switch {
-		case x < 28: // write / delete
+		case x < 10:
+			block()
+		case x < 34: // write / delete
 			op := Op{Kind: "w"}
 			if len(order) > 0 && r.Chance(2, 5) {
 				for i, n := 0, r.Range(1, 2); i < n && len(order) > 0; i++ {
